@@ -164,7 +164,146 @@ static void do_hist()
     printf("end\n");
 }
 
+
+// ---------------------------------------------------------------------------------------
+// hist2 (second wave): TWO field objects in one process on the same PhaseSpace (as main() has its
+// radiation field and its wake field), interleaved histories of calls and getters.
+//
+// hist2 <id> <n> <nb> b_0..b_{nb-1}
+//       <N1> <sp1> <full1>  z1: N1 x (re im)      object 1 (full = 0: constructor without the wake transform,
+//       <N2> <sp2> <full2>  z2: N2 x (re im)      object 2  as main() builds its radiation field)
+//       L   L x ( <obj 1|2> W|P|C <cutoff> p[nb*n]  |  <obj 1|2> G <getter 0..4> )
+// getters: 0 getWakePotentials  1 getPaddedWakePotential  2 getPaddedBunchProfiles  3 getCSRSpectrum  4 getCSRPower
+//
+// per operation k:
+//   op <k> <obj> <kind> same <0|1> [<buffer> <index> <got> <expected>]   call: observed buffers vs the same call on a
+//                                    freshly constructed object of the same kind;  getter: the cells it returns vs the
+//                                    cells the last call on this object left / a fresh object has (no call yet)
+//   other <0|1>                      all buffers of the OTHER object bit-identical before and after
+//   self <0|1>                       getter only: all buffers of THIS object bit-identical before and after
+//   ptr <0|1>                        getter only: it returns the address of the buffer the model names
+//   bp <N floats>                    padded profile of the object operated on
+
+struct Obj {
+    Cfg c; bool full; efp f;
+};
+
+static efp mkfield2(const Cfg& c, bool full)
+{
+    if (full) return mkfield(c);
+    // the constructor main() uses for rdtn_field: no _initWakeLossFFT()
+    return std::make_shared<ElectricField>(c.ps, c.z, c.buckets, c.sp, nullptr, 1e6, 0.125);
+}
+
+static std::vector<View> buffers2(const Obj& o)
+{
+    auto b = buffers(o.c, *o.f);
+    if (!o.full) { b[2].cells = 0; b[3].cells = 0; }      // _wakelosses, _wakepotential_padded do not exist
+    return b;
+}
+
+static std::vector<std::vector<unsigned char>> snapshot(const Obj& o)
+{
+    std::vector<std::vector<unsigned char>> r;
+    for (auto& v : buffers2(o)) {
+        const unsigned char* p = (const unsigned char*)v.p;
+        r.emplace_back(p, p + v.cells * v.cellbytes);
+    }
+    return r;
+}
+
+static void do_hist2()
+{
+    std::string id = next();
+    unsigned n = nextl(), nb = nextl();
+    std::vector<uint32_t> bks;
+    for (unsigned b = 0; b < nb; b++) bks.push_back(nextl());
+    auto ps = mkps(n, nb);
+    Obj o[2];
+    for (int w = 0; w < 2; w++) {
+        o[w].c.n = n; o[w].c.nb = nb; o[w].c.buckets = bks; o[w].c.ps = ps;
+        o[w].c.N = nextl(); o[w].c.sp = nextl(); o[w].full = nextl() != 0;
+        std::vector<impedance_t> z(o[w].c.N);
+        for (auto& v : z) { float re = nextf(); float im = nextf(); v = impedance_t(re, im); }
+        o[w].c.z = std::make_shared<Impedance>(z, 1e9f);
+    }
+    long L = nextl();
+    for (int w = 0; w < 2; w++) { efp warm = mkfield2(o[w].c, o[w].full); }   // wisdom of both lengths exists
+    for (int w = 0; w < 2; w++) o[w].f = mkfield2(o[w].c, o[w].full);
+    // what the last call on each object observed (for the getters): kind of the last call, 0 = none yet
+    char last[2] = {0, 0};
+    float lastcut[2] = {0, 0};
+    std::vector<float> lastp[2];
+    printf("case %s\n", id.c_str());
+    for (long k = 0; k < L; k++) {
+        int w = nextl() - 1;
+        char kind = next()[0];
+        Obj& me = o[w]; Obj& ot = o[1 - w];
+        auto before_other = snapshot(ot);
+        bool same = true;
+        printf("op %ld %d %c same", k, w + 1, kind);
+        if (kind == 'G') {
+            int g = nextl();
+            auto before_self = snapshot(me);
+            const void* got = nullptr; size_t cells = 0; int bidx = 0;
+            switch (g) {
+            case 0: got = me.f->getWakePotentials().data(); bidx = 4; break;
+            case 1: got = me.f->getPaddedWakePotential(); bidx = 3; break;
+            case 2: got = me.f->getPaddedBunchProfiles(); bidx = 0; break;
+            case 3: got = me.f->getCSRSpectrum(); bidx = 5; break;
+            default: got = me.f->getCSRPower(); bidx = 6; break;
+            }
+            auto bs = buffers(me.c, *me.f);
+            cells = (me.full || (bidx != 2 && bidx != 3)) ? bs[bidx].cells : 0;
+            bool ptr = got == bs[bidx].p;
+            // reference: a fresh object of the same kind given the last call made on this object (none: untouched)
+            efp fr = mkfield2(me.c, me.full);
+            if (last[w]) { setprofile(me.c, lastp[w]); doop(*fr, last[w], lastcut[w]); }
+            auto fb = buffers(me.c, *fr);
+            // a getter's value is determined by the last call only if that call writes the buffer (reads_of)
+            bool determined = !last[w] || (last[w] == 'W' && (bidx == 4 || bidx == 3 || bidx == 0)) ||
+                              (last[w] == 'P' && bidx == 0) || (last[w] == 'C' && (bidx == 5 || bidx == 6));
+            if (determined && got != nullptr) {
+                const float* a = (const float*)got; const float* e = (const float*)fb[bidx].p;
+                for (size_t j = 0; j < cells && same; j++)
+                    if (memcmp(a + j, e + j, sizeof(float)) != 0) {
+                        same = false;
+                        printf(" 0 %s %zu", bs[bidx].name, j); pf(a[j]); pf(e[j]);
+                    }
+            }
+            if (same) printf(" 1");
+            printf("\nself %d\nptr %d", snapshot(me) == before_self ? 1 : 0, ptr ? 1 : 0);
+        } else {
+            float cut = nextf();
+            std::vector<float> p((size_t)nb * n);
+            for (auto& v : p) v = nextf();
+            setprofile(me.c, p);
+            doop(*me.f, kind, cut);
+            efp fr = mkfield2(me.c, me.full);
+            doop(*fr, kind, cut);
+            auto oh = observed(me.c, *me.f, kind), of = observed(me.c, *fr, kind);
+            for (size_t i = 0; i < oh.size() && same; i++) {
+                if (!me.full && (oh[i].p == nullptr)) continue;
+                const float* a = (const float*)oh[i].p; const float* e = (const float*)of[i].p;
+                for (size_t j = 0; j < oh[i].cells; j++)
+                    if (memcmp(a + j, e + j, sizeof(float)) != 0) {
+                        same = false;
+                        printf(" 0 %s %zu", oh[i].name, j); pf(a[j]); pf(e[j]);
+                        break;
+                    }
+            }
+            if (same) printf(" 1");
+            last[w] = kind; lastcut[w] = cut; lastp[w] = p;
+        }
+        printf("\nother %d", snapshot(ot) == before_other ? 1 : 0);
+        printf("\nbp");
+        for (size_t i = 0; i < me.c.N; i++) pf(me.f->_bp_padded[i]);
+        printf("\n");
+    }
+    printf("end\n");
+}
+
 int main(int argc, char** argv)
 {
-    return run_main(argc, argv, {{"hist", do_hist}});
+    return run_main(argc, argv, {{"hist", do_hist}, {"hist2", do_hist2}});
 }
